@@ -64,6 +64,7 @@ var whitelist = []FuncSpec{
 	{"pkg/provider", "Endpoint", "Absolute"},
 	{"pkg/provider", "", "dynamicIssuer"},
 	{"pkg/provider", "", "devLocalAllowed"},
+	{"pkg/provider", "", "hasQueryOrFragment"},
 	{"pkg/provider", "", "ValidateIssuerPath"},
 	{"pkg/provider", "", "ValidateIssuer"},
 	{"pkg/provider", "Attributes", "GetNameID"},
@@ -1495,6 +1496,8 @@ func (c *tctx) libCall(pkg, name string, x *ast.CallExpr) val {
 		return val{e: "(Lib.fields " + es[0] + ")", g: g}
 	case "strings.Join":
 		return val{e: fmt.Sprintf("(Lib.join %s %s)", es[0], es[1]), g: g}
+	case "strings.ContainsAny":
+		return val{e: fmt.Sprintf("(Lib.containsAny %s %s)", es[0], es[1]), g: g}
 	case "strings.HasSuffix":
 		return val{e: fmt.Sprintf("(Lib.hasSuffix %s %s)", es[0], es[1]), g: g}
 	case "fmt.Errorf", "errors.New":
@@ -1584,6 +1587,9 @@ func (c *tctx) methodCall(fun *ast.SelectorExpr, x *ast.CallExpr) val {
 		case "DecodeString":
 			return val{e: fmt.Sprintf("(let r_ := Lib.b64decode %s; (r_.getD [], (if r_.isSome then (none : Err) else some \"base64\")))", es[0]), g: g}
 		}
+	case rs == "*net/url.URL" && name == "Hostname":
+		recv := c.expr(fun.X)
+		return val{e: fmt.Sprintf("(deref %s).hostname", recv.e), g: append(append(recv.g, recv.e+".isNone"), g...)}
 	case rs == "*net/url.URL" && name == "Query":
 		recv := c.expr(fun.X)
 		return val{e: fmt.Sprintf("(deref %s).queryKeys", recv.e), g: append(append(recv.g, recv.e+".isNone"), g...)}
@@ -1716,7 +1722,7 @@ func (w *world) emitLean() string {
 		}
 		changed = len(w.structs) != n
 	}
-	sb.WriteString("/-- fixed model of the parts of `net/url.URL` the code reads (answer of the `urlParse` oracle) -/\nstructure UrlRec where\n  Scheme : String := \"\"\n  Host : String := \"\"\n  Fragment : String := \"\"\n  queryKeys : List String := []\nderiving Repr, DecidableEq, Inhabited\n\n")
+	sb.WriteString("/-- fixed model of the parts of `net/url.URL` the code reads (answer of the `urlParse` oracle) -/\nstructure UrlRec where\n  Scheme : String := \"\"\n  Host : String := \"\"\n  Fragment : String := \"\"\n  RawQuery : String := \"\"\n  ForceQuery : Bool := false\n  hostname : String := \"\"\n  queryKeys : List String := []\nderiving Repr, DecidableEq, Inhabited\n\n")
 	sb.WriteString("/-- fixed model of an RSA private key: only whether it equals the zero value matters -/\nstructure KeyRec where\n  isZero : Bool := false\nderiving Repr, DecidableEq, Inhabited\n\n")
 	for _, si := range w.structOrder() {
 		fmt.Fprintf(&sb, "/-- slice of Go type %s.%s (fields the translated code touches) -/\nstructure %s where\n", si.named.Obj().Pkg().Path(), si.named.Obj().Name(), si.lean)
